@@ -286,6 +286,7 @@ def parseEOp (j : Json) : Except String EOp := do
   | "send" => return .send (← Driver.getNat j "w") (← Driver.getBool j "alive")
   | "deliver" => return .deliver (← Driver.getNat j "k") (← Driver.getBool j "fail")
   | "tick" => return .tick (← Driver.getNat j "d")
+  | "shutdown" => return .shutdown (← Driver.getNat j "w")
   | s => throw s!"bad env op {s}"
 
 /-- (real-code label, program point) of the step thread `t` is about to take -/
@@ -351,13 +352,16 @@ def xlabel (x : X) (t : Tid) : String × String :=
         match x.env.escript t with
         | .die _ :: _ => ("start", "e.die") | .revive _ :: _ => ("start", "e.revive")
         | .send .. :: _ => ("start", "e.send") | .tick _ :: _ => ("start", "e.tick")
+        | .shutdown _ :: _ => ("start", "e.shutdown")
         | .deliver k fail :: _ =>
           ("start", match x.env.queue with
             | [] => "e.deliver.empty"
-            | q => if fail then "e.deliver.fail" else
+            | q => if x.env.callSt (q.getD (k % q.length) 0) == .cancelled then "e.deliver.cancelled" else
+              if fail then "e.deliver.fail" else
               match x.env.calls[q.getD (k % q.length) 0]? with
               | some (.hb .., _) => "e.deliver.hb" | some (.ping _, _) => "e.deliver.ping"
               | some (.taskRaise _, _) => "e.deliver.taskRaise"
+              | some (.shutdownC _, _) => "e.deliver.shutdown"
               | _ => "e.deliver.plain")
         | [] => ("end", "end")
 
